@@ -193,6 +193,27 @@ func intrinsic(ex *Exec, st *State, site ssa.Instruction, fn *ssa.Function, args
 			}
 		}
 		return nil
+	case "Protect":
+		// Protect(object, mutex): object is a map or a pointer; mutex a *sync.Mutex
+		iv, ok := args[0].(*IfaceV)
+		if !ok {
+			panic(unsupported("Protect needs a map or pointer"))
+		}
+		var obj int
+		switch o := iv.V.(type) {
+		case *MapV:
+			obj = o.Obj
+		case *PtrV:
+			obj = o.Obj
+		default:
+			panic(unsupported("Protect of " + describe(iv.V)))
+		}
+		mu := ex.syncCell(st, args[1], "mutex")
+		if ex.protected == nil {
+			ex.protected = map[int]int{}
+		}
+		ex.protected[obj] = mu
+		return nil
 	case "Attempts":
 		return bv64(1)
 	case "Jitter":
@@ -380,6 +401,20 @@ func registerStubs(ex *Exec) {
 			return nil
 		})
 		return Nil
+	}
+	S["time.Now"] = stubZero
+	S["(time.Time).Add"] = stubZero
+	S["(time.Time).After"] = func(ex *Exec, st *State, site ssa.Instruction, fn *ssa.Function, args []Value) Value {
+		// deadlines of seconds never expire within the few steps of a bounded run
+		return smt.False
+	}
+	S["time.NewTimer"] = stubZero
+	S["github.com/realbucksavage/openrgb-go.Connect"] = func(ex *Exec, st *State, site ssa.Instruction, fn *ssa.Function, args []Value) Value {
+		if ex.OpenRGB != nil {
+			return ex.OpenRGB(ex, st, site, fn, args)
+		}
+		// no server: the connection attempt fails (LED feedback connected is the subject of C17's harness)
+		return &TupleV{E: []Value{Nil, &IfaceV{T: nil, V: ex.newOpaque("error")}}}
 	}
 	registerTomlStubs(ex)
 	registerStringStubs(ex)
